@@ -222,6 +222,18 @@ func genC13(repo string) (string, error) {
 		}
 		o.strList("body_"+b.recv+"_"+b.name, c12Body(b.f, fd), b.f.Path+": statements of ("+b.recv+")."+b.name)
 	}
+	// the key validation of key type table / txn: adjustRuleContent hands the very buffer the rule is indexed
+	// by (r.StartKey / r.EndKey) to codec.DecodeBytes and keeps using it: DecodeBytes must not write into its
+	// argument (the driver's keytype class exercises it; this pins the text)
+	cd, err := goast.Load(repo, "pkg/codec/codec.go")
+	if err != nil {
+		return "", err
+	}
+	dfd, err := cd.Func("", "DecodeBytes")
+	if err != nil {
+		return "", err
+	}
+	o.strList("body_codec_DecodeBytes", c12Body(cd, dfd), cd.Path+": statements of DecodeBytes")
 	return o.sb.String(), nil
 }
 
